@@ -2,8 +2,8 @@ package main
 
 // single deviations of the registration ceremony (Appendix B, clauses R1–R13, P1–P2)
 var regDeviations = []string{"cd.type", "cd.challenge", "cd.origin", "cd.malformed", "ad.rpIdHash", "ad.noUP", "ad.noUV", "ad.noACD",
-	"key.unsupported", "key.noAlg", "alg.notAllowed", "sig.otherKey", "sig.otherMessage", "sig.bitflip", "fmt.notAllowed", "type.notAllowed",
-	"rawId.other", "owner.other", "attObj.malformed"}
+	"key.unsupported", "key.noAlg", "key.okpOversize", "alg.notAllowed", "sig.otherKey", "sig.otherMessage", "sig.bitflip", "fmt.notAllowed", "type.notAllowed",
+	"rawId.other", "rawId.lengthVariant", "owner.other", "attObj.malformed"}
 
 func regWithDeviation(c *Ctx, stream, format string, credAlg, attAlg int, devs ...string) {
 	regWithDeviationVar(c, stream, format, credAlg, attAlg, -1, devs...)
@@ -69,7 +69,7 @@ func regWithDeviationVar(c *Ctx, stream, format string, credAlg, attAlg int, v i
 			}
 			s.VerifyOpt = append(s.VerifyOpt, M{"types": ts})
 		case "owner.other":
-			s.Store = []M{{"id": hx(s.CredID), "owner": hx(append(append([]byte{}, s.UserID...), 'x')), "pk": hx(cborMap())}}
+			s.Store = []M{{"id": hx(s.CredID), "owner": hx(otherOwner(r, s.UserID)), "pk": hx(cborMap())}}
 		}
 	}
 	b := buildRegistration(r, s)
@@ -108,6 +108,18 @@ func init() {
 						ca := pick(c.R, credAlgsFor(f))
 						aa := pick(c.R, attAlgsFor(f))
 						regWithDeviation(c, "reg.dev."+dv, f, ca, aa, dv)
+					}
+				}
+			}
+		}},
+		Stream{"reg.formatRequirements", func(c *Ctx) {
+			// "the statement verifies under the procedure of its declared format": every single requirement of every format (C04's list), through
+			// the whole ceremony, with storage observed
+			reps := c.N(1, 6)
+			for rep := 0; rep < reps; rep++ {
+				for f, devs := range formatRequirementDevs {
+					for _, dv := range devs {
+						regWithDeviation(c, "reg.fmtreq."+f+"."+dv, f, pick(c.R, credAlgsFor(f)), pick(c.R, attAlgsFor(f)), dv)
 					}
 				}
 			}
@@ -186,4 +198,24 @@ func init() {
 			}
 		}},
 	)
+}
+
+// otherOwner: a user handle that is NOT userID but close to it in the ways a careless comparison forgives: one more byte, trailing zeros,
+// 256 more bytes (a length difference folded into one byte), a shorter prefix, the last byte changed, and — for handles longer than 64 bytes —
+// a difference only behind the 64th byte
+func otherOwner(r *RNG, userID []byte) []byte {
+	cp := func() []byte { return append([]byte{}, userID...) }
+	alts := [][]byte{append(cp(), 'x'), append(cp(), 0), append(cp(), 0, 0, 0), append(cp(), r.Bytes(256)...), append(cp(), make([]byte, 256)...)}
+	if len(userID) > 1 {
+		alts = append(alts, userID[:len(userID)-1])
+		fl := cp()
+		fl[len(fl)-1] ^= 1
+		alts = append(alts, fl)
+	}
+	if len(userID) > 64 {
+		fl := cp()
+		fl[64+r.Intn(len(fl)-64)] ^= 0x40
+		alts = append(alts, fl, fl, fl)
+	}
+	return pick(r, alts)
 }
